@@ -41,8 +41,13 @@ def unpack_corpus():
         names[e["name"]] = e["name"]
         for a in e["aliases"]:
             names[a] = e["name"]
+    if os.path.exists(stamp) and open(stamp).read() == want:
+        return names
+    import fcntl
+    os.makedirs(ZI, exist_ok=True)
+    lk = open(os.path.join(C.BUILD, "tzfile", ".unpack.lock"), "w")
+    fcntl.flock(lk, fcntl.LOCK_EX)          # two checks starting together must not interleave
     if not (os.path.exists(stamp) and open(stamp).read() == want):
-        os.makedirs(ZI, exist_ok=True)
         with tarfile.open(tarp) as tf:
             tf.extractall(ZI)
         for a, n in names.items():
@@ -54,6 +59,7 @@ def unpack_corpus():
                 with open(p, "wb") as f:
                     f.write(data)
         open(stamp, "w").write(want)
+    lk.close()
     return names
 
 
@@ -501,7 +507,13 @@ def examine_utc(o, name, b, z, inf, us, usec_of):
     sp = spec_utc(o, b, us)
     sd = spec_data(o, b, us)
     seen = {}
+    import bisect as _bisect
+    tlist = [t for t, _o in inf["trans"]]
+    out["nontrivial"] = 0
     for k, u in enumerate(us):
+        i = _bisect.bisect_right(tlist, u)
+        if (i > 0 and u - tlist[i - 1] <= 7200) or (i < len(tlist) and tlist[i] - u <= 7200):
+            out["nontrivial"] += 1      # within 2 h of a transition of this zone
         im = impl_obs_utc(z, u, usec_of(u))
         m = mo[k]
         if im != m:
@@ -523,6 +535,8 @@ def examine_utc(o, name, b, z, inf, us, usec_of):
             out["spec_diff"].append({"u": u, "impl": [off, w, f], "spec": list(s)})
         out["folds"] += f
         inr, g, isd, ab = sd[k]
+        if not inr and tlist and u < tlist[0]:
+            inr = 1        # before the first transition: the data's first standard type (C06)
         if inr:
             out["in_range"] += 1
             if g is None or off != g or nm != ab or (isd == 0 and dst != 0):
@@ -543,10 +557,16 @@ def examine_wall(o, name, b, z, inf, ws):
     wfs = [(w, f) for w in ws for f in (0, 1)]
     mo = model_obs_wall(o, b, wfs)
     sp = spec_wall(o, b, ws)
+    import bisect as _bisect
+    wlist = sorted(inf["wall"])
+    out["nontrivial"] = 0
     for k, (w, f) in enumerate(wfs):
         im = impl_obs_wall(z, w, f)
         m = mo[k]
         s = sp[k // 2]
+        i = _bisect.bisect_right(wlist, w)
+        if len(s["pre"]) != 1 or (i > 0 and w - wlist[i - 1] <= 7200) or (i < len(wlist) and wlist[i] - w <= 7200):
+            out["nontrivial"] += 1      # imaginary, ambiguous, or within 2 h of a wall-clock transition
         if im != m:
             out["model_diff"].append({"w": w, "fold": f, "impl": im, "model": m})
         n = len(s["pre"])
@@ -565,13 +585,11 @@ def examine_wall(o, name, b, z, inf, ws):
         elif n >= 1 and rs != (w, f):
             why = "resolve_imaginary changed an existing wall time"
         elif n == 0:
-            if s["isolated"]:
-                out["resolve_checked"] += 1
-                if rs[0] != s["resolve"]:
-                    why = "resolve_imaginary does not move forward by the width of the gap"
-            else:
-                if f == 0:
-                    out["not_isolated"].append({"w": w, "impl": rs[0], "spec": s["resolve"]})
+            out["resolve_checked"] += 1
+            if not s["isolated"] and f == 0:
+                out["not_isolated"].append({"w": w, "impl": rs[0], "spec": s["resolve"]})
+            if rs != (s["resolve"], 0):
+                why = "resolve_imaginary does not move forward by the width of the gap"
         if why:
             out["spec_diff"].append({"w": w, "fold": f, "why": why, "impl": im, "spec": s})
         if k % 1499 == 0 and len(out["samples"]) < 3:
